@@ -96,6 +96,8 @@ static inline uint32_t f_memcmp(unsigned char* a, unsigned char* b, uint64_t n){
 static inline uint32_t f_bcmp(unsigned char* a, unsigned char* b, uint64_t n){ return (uint32_t)memcmp(a,b,n); }
 #define HAVE_f_memchr
 
+/* llvm.trap (__builtin_trap, e.g. a deleting destructor that must never run): reaching it is a failure */
+static inline void vf_trap(void){ __CPROVER_assert(0, "llvm.trap reached"); __CPROVER_assume(0); }
 /* ---- integer intrinsics ---- */
 static inline uint32_t vf_ctlz_i32(uint32_t x, unsigned char z){ if(z) __CPROVER_assert(x!=0,"ctlz(0) is UB (__builtin_clz(0))"); if(x==0) return 32; return __builtin_clz(x); }
 static inline uint64_t vf_ctlz_i64(uint64_t x, unsigned char z){ if(z) __CPROVER_assert(x!=0,"ctlz(0) is UB"); if(x==0) return 64; return __builtin_clzll(x); }
